@@ -6,16 +6,17 @@ import (
 	"strconv"
 )
 
-// C10, spec-only cases for the filters that are NOT in the Lean model (stand-alone aligner / aligner with fill mode
-// of both packages, delta and rate filters of the datasource package):
+// C10, the stream filters: aligner / aligner with fill mode (both packages), delta and rate filter (datasource
+// package).  They are part of the Lean model (RDs.xfiltered / DDs.xfiltered, chains via chainR / chainD), so the
+// cases generated here are ordinary model-compared `q` cases:
 //
-//	X rep|ds <exact|mask> <from> <to> <tree>
+//	( align pNanos ) ( alignfill pNanos linear|forward|bogus ) [both packages; fixed period, UTC]
+//	( delta nn max ) ( rate 'unit perSeconds nn max ) [datasource package; max: int64 or d:<bits>]
 //
-// grammar of notes/C10-protocol.md plus ( align pNanos ) ( alignfill pNanos linear|forward ) [both packages] and
-// ( delta nn max ) ( rate 'unit perSeconds nn max ) [datasource package].  The observation is the usual typed one
-// (declared metadata + rows with the dynamic Go type of every cell); the Lean driver evaluates only C10's spec
-// predicate on it and returns the observation as the model text: for these filters C10 is decided on the real code
-// alone (no model, no theorem).  All inputs of X cases are schema-conforming by construction.
+// What stays outside the model are CALENDAR alignment periods: `X rep|ds <exact|mask> <from> <to> <tree>` cases with
+// ( aligncal day|week|month|quarter|halfyear|year 'zone ) / ( aligncalfill unit 'zone mode ); for those the Lean driver
+// evaluates only C10's spec predicate on the typed observation of the real code (no model, no theorem).
+// All inputs generated in this file are schema-conforming by construction.
 
 func execXLineX(toks []string) (obs string, inputFail bool) {
 	defer func() {
@@ -116,6 +117,10 @@ func xExtFilters() []string {
 		}
 	}
 	out = append(out, qT("rate", "'", "0", "1", "100"))
+	// index 28..: unsupported fill mode, negative perSeconds, negative / fractional / NaN / +Inf maxCounterValue
+	out = append(out, qT("alignfill", "1000000000", "bogus"), qT("rate", "'u", "-3", "0", "0"),
+		qT("delta", "1", "-5"), qT("delta", "1", "d:3fe0000000000000"), qT("delta", "1", "d:7ff8000000000001"),
+		qT("rate", "'", "1", "1", "d:7ff0000000000000"))
 	return out
 }
 
@@ -127,11 +132,12 @@ func xAfter(f string, dt string) string {
 	return dt
 }
 
-func genC10X(e *qEmitter, c *Ctx) {
+func genC10Stream(e *qEmitter, c *Ctx) {
 	emit := func(kind string, from, to int64, tree string) {
-		e.emit(fmt.Sprintf("X %s exact %d %d %s", kind, from, to, tree), false)
+		e.emit(fmt.Sprintf("q %s exact %d %d %s", kind, from, to, tree), false)
 	}
 	exts := xExtFilters()
+	genC10StreamSmallScope(e)
 	afm := func(u string) string { return qT("afm", qQ(u), "'", "nil") }
 	// structured sweep: every extension filter over every series, int and dec, required and optional,
 	// alone and stacked with modelled filters / values / bridges / joins / reductions
@@ -172,7 +178,7 @@ func genC10X(e *qEmitter, c *Ctx) {
 		// report aligners over a four-column table (required and optional numeric columns)
 		for _, opt := range []bool{false, true} {
 			r := xRstatic(s, opt)
-			for _, f := range exts[:9] {
+			for _, f := range append(append([]string(nil), exts[:9]...), exts[28]) {
 				emit("rep", -5e9, 30e9, qT("rfilt", r, f))
 				emit("rep", 1e9, 8e9, qT("rfilt", r, qT("append", qT("num", "add", qT("ref", "'ri"), qT("ref", "'ri")), afm("sum")), f,
 					qT("append", qT("num", "sub", qT("ref", "'rd"), qT("ref", "'rd")), afm("zero")), qT("drop", "'oi")))
@@ -238,5 +244,126 @@ func genC10X(e *qEmitter, c *Ctx) {
 		} else {
 			emit("ds", from, to, tree)
 		}
+	}
+}
+
+// genC10StreamSmallScope: the exhaustive small scope of the stream filters (valid and invalid uses):
+//   - every stream filter over each of the ten typed columns of the fixed table (5 types x required/optional):
+//     non-numeric -> rejected, optional -> rejected by delta / rate, accepted by the aligners (nils forwarded, or the
+//     interpolation fails at row level);
+//   - every report aligner over the whole ten-column table (rejected), over every single column and over every pair
+//     of numeric columns (+ one numeric/string pair);
+//   - every ordered pair of stream filters over a required integer and a required decimal counter.
+func genC10StreamSmallScope(e *qEmitter) {
+	exts := xExtFilters()
+	p := newQP1()
+	for _, col := range p.cols {
+		d := qP1Dstatic(col)
+		for _, f := range exts {
+			e.emit(fmt.Sprintf("q ds exact %d %d %s", qP1From, qP1To, qT("dfilt", d, f)), false)
+		}
+	}
+	aligners := append(append([]string(nil), exts[:9]...), exts[28])
+	sel := func(urns ...string) string {
+		parts := []string{"select"}
+		for _, u := range urns {
+			parts = append(parts, qT(qT("ref", qQ(u)), qT("afm", qQ(u), "'", "nil")))
+		}
+		return qT(parts...)
+	}
+	numeric := []string{"ri", "oi", "rd", "od"}
+	for _, f := range aligners {
+		e.emit(fmt.Sprintf("q rep exact %d %d %s", qP1From, qP1To, qT("rfilt", p.t0, f)), false)
+		for _, col := range p.cols {
+			e.emit(fmt.Sprintf("q rep exact %d %d %s", qP1From, qP1To, qT("rfilt", p.t0, sel(col.col.urn), f)), false)
+		}
+		for i, a := range numeric {
+			for _, b := range numeric[i+1:] {
+				e.emit(fmt.Sprintf("q rep exact %d %d %s", qP1From, qP1To, qT("rfilt", p.t0, sel(a, b), f)), false)
+			}
+		}
+		e.emit(fmt.Sprintf("q rep exact %d %d %s", qP1From, qP1To, qT("rfilt", p.t0, sel("ri", "rs"), f)), false)
+	}
+	for _, dt := range []string{"int", "dec"} {
+		d := xDstatic("counter", dt, true, xFixedSeries[0], 0)
+		for _, f1 := range exts {
+			for _, f2 := range exts {
+				e.emit(fmt.Sprintf("q ds exact %d %d %s", int64(-5e9), int64(30e9), qT("dfilt", d, f1, f2)), false)
+			}
+		}
+	}
+}
+
+// genC10Cal: spec-only X cases — aligner filters over CALENDAR alignment periods (outside the Lean model, which has
+// fixed periods only).  Zones whose DST switches are not at local midnight (known finding D14 is about those).
+func genC10Cal(e *qEmitter, c *Ctx) {
+	emit := func(kind string, tree string) {
+		e.emit(fmt.Sprintf("X %s exact %d %d %s", kind, int64(0), int64(4e18), tree), false)
+	}
+	const base = int64(1711584000) * 1e9 // 2024-03-28T00:00:00Z: the European DST switch (03-31) is inside the series
+	mk := func(n int, step int64) xSeries {
+		s := xSeries{}
+		v := int64(3)
+		for i := 0; i < n; i++ {
+			s.ts = append(s.ts, base+int64(i)*step+int64(i%5)*977e9)
+			s.vals = append(s.vals, v)
+			v += int64((i*7)%11) - 3
+		}
+		return s
+	}
+	hours := mk(60, 7*3600e9)   // 17 days, several readings per day
+	weeks := mk(40, 11*86400e9) // 440 days, one reading every 11 days
+	zones := []string{"UTC", "Europe/Berlin", "America/New_York", "Asia/Kolkata"}
+	afm := func(u string) string { return qT("afm", qQ(u), "'", "nil") }
+	for _, z := range zones {
+		for _, unit := range []string{"day", "week", "month", "quarter", "halfyear", "year"} {
+			s := weeks
+			if unit == "day" || unit == "week" {
+				s = hours
+			}
+			fs := []string{qT("aligncal", unit, qQ(z)), qT("aligncalfill", unit, qQ(z), "linear"), qT("aligncalfill", unit, qQ(z), "forward")}
+			for _, f := range fs {
+				for _, dt := range []string{"int", "dec"} {
+					for _, req := range []bool{true, false} {
+						d := xDstatic("counter", dt, req, s, 4)
+						emit("ds", qT("dfilt", d, f))
+						emit("ds", qT("dfilt", d, f, qT("fval", qT("num", "add", qT("ref"), xConst(dt, 8)), afm("plus1"))))
+						if req {
+							emit("ds", qT("dfilt", d, f, qT("delta", "1", "100")))
+							emit("ds", qT("dfilt", d, qT("rate", "'kb", "60", "0", "0"), f))
+						}
+					}
+				}
+				for _, opt := range []bool{false, true} {
+					emit("rep", qT("rfilt", xRstatic(s, opt), f))
+					emit("ds", qT("tods", qT("rfilt", xRstatic(s, opt), f), "'rd"))
+				}
+			}
+		}
+	}
+	// seeded random: random series over a few weeks, random unit / zone / fill
+	r := c.Rng
+	n := c.Pick(300, 3000)
+	units := []string{"day", "week", "month", "quarter", "halfyear", "year"}
+	for i := 0; i < n; i++ {
+		s := xSeries{}
+		t := base + int64(r.Intn(86400))*1e9
+		v := int64(r.Intn(40))
+		for k := r.Small(14); k > 0; k-- {
+			s.ts = append(s.ts, t)
+			s.vals = append(s.vals, v)
+			t += int64(1+r.Intn(200)) * 1800e9
+			v += int64(r.Intn(25)) - 6
+		}
+		dt := []string{"int", "dec"}[r.Intn(2)]
+		unit := units[r.Intn(3)]
+		if r.Intn(4) == 0 {
+			unit = units[3+r.Intn(3)]
+		}
+		f := qT("aligncal", unit, qQ(zones[r.Intn(len(zones))]))
+		if r.Intn(3) > 0 {
+			f = qT("aligncalfill", unit, qQ(zones[r.Intn(len(zones))]), []string{"linear", "forward"}[r.Intn(2)])
+		}
+		emit("ds", qT("dfilt", xDstatic("counter", dt, r.Intn(4) != 0, s, 2+r.Intn(3)), f))
 	}
 }
